@@ -180,3 +180,29 @@ def nominees(case, cfg, etype: str, gtable) -> list:
                 break
             node = node.parent
     return out
+
+
+def enter_set(P: Node, explicit) -> Set[str]:
+    """Ids active inside P (incl. P) after entering P with the explicit target nodes `explicit`
+    (each a descendant-or-self of P); everything not named gets its default entry."""
+    explicit = list(explicit)
+
+    def on_path(n):
+        return any(e.is_desc_of(n) for e in explicit)
+
+    out: Set[str] = set()
+
+    def expand(n):
+        out.add(n.id)
+        if n.kind == "compound":
+            kids = [c for c in n.children if c.kind != "history" and on_path(c)]
+            if not kids and n.initial and n.child(n.initial) is not None:
+                kids = [n.child(n.initial)]
+            for c in kids:
+                expand(c)
+        elif n.kind == "parallel":
+            for c in n.children:
+                if c.kind != "history":
+                    expand(c)
+    expand(P)
+    return out
